@@ -18,7 +18,7 @@ from .model import Program, FunctionInfo, ClassInfo, ModuleInfo, AnalysisError, 
 from .values import *  # noqa: F401,F403
 from .extapi import is_bool_expr
 from .values import (Val, Num, StrV, NoneV, NONE, BoolV, CondV, TupleV, ListV, DictV, SetV, SliceV, ObjV,
-                     ClassV, FuncV, ExtV, BoundBuiltin, OpaqueV, SigParamV, SignatureV, Unsupported,
+                     ClassV, FuncV, ExtV, BoundBuiltin, OpaqueV, SigParamV, SignatureV, Unsupported, PyFuncV,
                      DimensionError, UNITS, UNIT_SYMS, F, NONE_S, fresh_index, mk_ite)
 
 MAX_DEPTH = 14
@@ -943,6 +943,10 @@ class Evaluator:
             return True
         if isinstance(a, SigParamV) or isinstance(b, SigParamV):
             return a is b
+        if isinstance(a, ObjV) != isinstance(b, ObjV):
+            return False          # an object is never identical to a number / container
+        if isinstance(a, ObjV) and isinstance(b, ObjV):
+            return False          # distinct abstract objects (a is b was handled above)
         return None
 
     def equal_vals(self, a, b):
@@ -1130,7 +1134,7 @@ class Evaluator:
                 raise Raised("TypeError", node, "object is not subscriptable")
             if obj.cls.is_subclass_of("Signal") and fr is not None and fr.fi is not None:
                 self.signal_slices.append((fr.fi, node, idx, list(fr.facts)))
-            return self.call(m, [idx], {}, self_val=obj, depth=fr.depth + 1)
+            return self.apply(FuncV(m, bound=obj), [idx], {}, fr if fr is not None and fr.ev is not None else Frame(self, None, None, {}, 0), node)
         if isinstance(obj, ExtV):
             return self.ext.ext_getitem(self, obj, idx, fr, node)
         if isinstance(obj, Num):
@@ -1223,6 +1227,8 @@ class Evaluator:
             return self.ext.call_ext(self, fn, args, kwargs, fr, node)
         if isinstance(fn, BoundBuiltin):
             return self.ext.call_method(self, fn.recv, fn.name, args, kwargs, fr, node)
+        if isinstance(fn, PyFuncV):
+            return fn.fn(self, args, kwargs, fr, node)
         if isinstance(fn, OpaqueV):
             if fn.what == "delayed":
                 res = self.apply(fn.payload["func"], args, kwargs, fr, node)
